@@ -261,7 +261,9 @@ impl<'a, 'tcx> Cx<'a, 'tcx> {
         let tcx = self.tcx;
         let mut pty = PlaceTy::from_ty(self.body.local_decls[p.local].ty);
         let mut pj = Vec::new();
+        let mut pjt = Vec::new();
         for elem in p.projection.iter() {
+            pjt.push(J::s(&pty.ty.to_string()));
             let e = match elem {
                 ProjectionElem::Deref => J::s("*"),
                 ProjectionElem::Field(f, _) => {
@@ -321,6 +323,7 @@ impl<'a, 'tcx> Cx<'a, 'tcx> {
         let mut o = vec![("l", J::Num(p.local.as_usize() as i128))];
         if !pj.is_empty() {
             o.push(("pj", J::Arr(pj)));
+            o.push(("pjt", J::Arr(pjt)));
             o.push(("ty", J::s(&pty.ty.to_string())));
         }
         J::Obj(o)
@@ -678,6 +681,16 @@ fn const_value<'tcx>(tcx: TyCtxt<'tcx>, v: ConstValue, ty: Ty<'tcx>, o: &mut Vec
             }
         }
         ConstValue::Scalar(mir::interpret::Scalar::Ptr(ptr, _)) => {
+            {
+                let (prov, _off) = ptr.prov_and_relative_offset();
+                if let Some(mir::interpret::GlobalAlloc::Static(did)) = tcx.try_get_global_alloc(prov.alloc_id()) {
+                    o.push(("static", J::s(&tcx.def_path_str(did))));
+                    o.push(("static_crate", J::s(tcx.crate_name(did.krate).as_str())));
+                    if let DefKind::Static { mutability, .. } = tcx.def_kind(did) {
+                        o.push(("static_mut", J::Bool(mutability.is_mut())));
+                    }
+                }
+            }
             // reference to a sized value: dump bytes for &[u8; N] / &[T; N] of small element types
             if let ty::Ref(_, inner, _) = ty.kind() {
                 if let ty::Array(et, n) = inner.kind() {
